@@ -64,6 +64,51 @@ PROGRAMS = [
     "def f(c):\n    if c:\n        def h():\n            return 1\n    else:\n        h = None\n    return h\nprint(f(1), f(0))\n",
     "def gen():\n    x = yield 1\n    y = yield x\n    return y\ng = gen()\nprint(next(g), g.send(5))\n",
     "def f():\n    with open(__file__) as fh:\n        data = fh.read()\n    return len(data) and fh\nprint(f())\n",
+    # --- call-time lookups: names defined after the function that reads them, rebinding of module names, recursion
+    "def f():\n    return g() + K\ndef g():\n    return 1\nK = 2\nprint(f())\n",
+    "def even(n):\n    return True if n == 0 else odd(n - 1)\ndef odd(n):\n    return False if n == 0 else even(n - 1)\nprint(even(4))\n",
+    "class A:\n    def m(self):\n        return B().n()\nclass B:\n    def n(self):\n        return A\nprint(A().m())\n",
+    "x = 1\ndef f():\n    return x\nx = 2\nprint(f(), x)\n",
+    "def f():\n    def g():\n        return h()\n    def h():\n        return 1\n    return g()\nprint(f())\n",
+    # --- class bodies
+    "y = 1\nclass K:\n    a = y\n    b = a + 1\n    def m(self):\n        return y, K.b\n    c = [y for _ in (1,)]\nprint(K().m(), K.c)\n",
+    "class K:\n    import os as _os\n    from os import sep\n    p = _os.sep == sep\nprint(K.p)\n",
+    # (the implicit `__class__` cell of a method is a name no statement binds: outside the domain, not in the corpus)
+    "class Base:\n    def hello(self):\n        return 1\nclass D(Base):\n    def hello(self):\n        return super().hello() + 1\n    def cls(self):\n        return type(self)\nprint(D().hello(), D().cls())\n",
+    "def mk(n):\n    class L:\n        size = n\n        def get(self):\n            return n, L.size\n    return L\nprint(mk(3)().get())\n",
+    "class K:\n    @staticmethod\n    def s(v=1):\n        return v\n    @classmethod\n    def c(cls, w=s):\n        return cls, w\n    @property\n    def p(self):\n        return self.s()\nprint(K.c(), K().p)\n",
+    # --- expressions with binding side effects
+    "def f(xs):\n    if (n := len(xs)) > 1 and (m := n * 2) > 2:\n        return n, m\n    return n\nprint(f([1, 2]), f([]))\n",
+    "def f(a):\n    r = (b := a + 1) if a else (b := 0)\n    return r, b\nprint(f(1), f(0))\n",
+    "def f(a):\n    return [y for x in a if (y := x + 1) > 1]\nprint(f([1, 2]))\n",
+    "import re\ndef f(s):\n    while (mo := re.match('a', s)):\n        s = s[1:]\n    return s, mo\nprint(f('aab'))\n",
+    "def f(n):\n    total = 0\n    while (n := n - 1) >= 0:\n        total += n\n    else:\n        last = n\n    return total, last\nprint(f(3))\n",
+    # --- try / finally / return / loops with else
+    "def f(c):\n    try:\n        if c:\n            return 'early'\n        v = 1\n    finally:\n        w = 2\n    return v, w\nprint(f(0), f(1))\n",
+    "def f(xs):\n    for x in xs:\n        try:\n            y = 1 // x\n        except ZeroDivisionError as err:\n            msg = str(err)\n            continue\n        else:\n            ok = y\n    return xs and (x,)\nprint(f([0, 1]))\n",
+    "def f():\n    try:\n        import nonexistent_zq_mod as m\n    except ImportError:\n        m = None\n    return m\nprint(f())\n",
+    "def f(n):\n    out = []\n    for i in range(n):\n        for j in range(i):\n            if j:\n                break\n        else:\n            out.append(i)\n            continue\n        out.append((i, j))\n    return out\nprint(f(3))\n",
+    "def f():\n    with open(__file__) as a, open(__file__) as b:\n        pair = a, b\n    return pair\nprint(f())\n",
+    # --- async
+    "import asyncio\nasync def agen():\n    for i in range(2):\n        yield i\nasync def main():\n    out = [x async for x in agen()]\n    async for y in agen():\n        last = y\n    return out, last\nprint(asyncio.run(main()))\n",
+    "import asyncio\nclass CM:\n    async def __aenter__(self):\n        return self\n    async def __aexit__(self, *a):\n        return False\nasync def main():\n    async with CM() as c, CM() as d:\n        return c, d\nprint(asyncio.run(main()))\n",
+    # --- star / keyword unpacking, lambdas, nested lambdas
+    "def f(*a, **k):\n    return a, k\nargs = (1,)\nkw = {'z': 2}\nprint(f(*args, **kw), [*args, *args], {**kw})\n",
+    "mul = lambda a: lambda b: a * b\nprint(mul(2)(3))\n",
+    "def f(seq, key=lambda item, default=0: item or default):\n    return [key(s) for s in seq]\nprint(f([0, 1]))\n",
+    # --- globals declared in nested functions / conditional globals
+    "def outer():\n    def inner():\n        global G3\n        G3 = 3\n    inner()\n    return G3\nprint(outer(), G3)\n",
+    "import sys\nif sys.argv is not None:\n    FLAG = True\nelse:\n    FLAG = False\ndef f():\n    return FLAG\nprint(f())\n",
+    "def f():\n    global H\n    for H in range(2):\n        pass\n    with open(__file__) as H2:\n        pass\n    return H\nprint(f(), H)\n",
+    # --- nonlocal in several shapes
+    "def counter():\n    n = 0\n    def inc(by=1):\n        nonlocal n\n        if by:\n            n += by\n        return n\n    return inc\nc = counter()\nprint(c(), c(0), c(2))\n",
+    "def outer():\n    a = b = 0\n    def mid():\n        nonlocal a\n        def inner():\n            nonlocal a, b\n            a, b = a + 1, b + 1\n            return a, b\n        return inner()\n    return mid(), a, b\nprint(outer())\n",
+    "def outer():\n    items = []\n    def add(x):\n        nonlocal items\n        items = items + [x]\n        for items2 in items:\n            pass\n        return items\n    return add(1), items\nprint(outer())\n",
+    # --- decorators, nested def in loops, names reused across scopes
+    "import functools\ndef deco(fn):\n    @functools.wraps(fn)\n    def wrapper(*a, **k):\n        return fn(*a, **k)\n    return wrapper\n@deco\ndef f(x):\n    return x\nprint(f(1))\n",
+    "handlers = {}\nfor name in ('a', 'b'):\n    def h(arg, name=name):\n        return name, arg\n    handlers[name] = h\nprint(handlers['a'](1), name, h)\n",
+    "x = 'module'\ndef f(x):\n    def g():\n        return x\n    return g()\nclass K:\n    x = 'class'\n    def m(self):\n        return x\nprint(f('arg'), K().m(), K.x)\n",
+    "def f():\n    l = []\n    for i in range(2):\n        l.append(i)\n    i2 = i\n    return l, i2\nprint(f())\n",
 ]
 
 
@@ -143,6 +188,19 @@ def nonlocal_rebound_read(src, read):
     declared = any(isinstance(n, ast.Nonlocal) and name in n.names for n in nodes)
     bound = any(isinstance(n, ast.Name) and n.id == name and isinstance(n.ctx, ast.Store) for n in nodes)
     return declared and bound
+
+
+def walrus_in_comp_condition(src, read):
+    """known-finding class C01-walrus-in-comprehension: the read is in the element of a comprehension one of whose conditions
+    binds the name through a walrus"""
+    name, ln, col = read
+    for n in ast.walk(ast.parse(src)):
+        if isinstance(n, (ast.ListComp, ast.SetComp, ast.GeneratorExp, ast.DictComp)) and n.lineno <= ln <= n.end_lineno:
+            for g in n.generators:
+                for cond in g.ifs:
+                    if any(isinstance(w, ast.NamedExpr) and w.target.id == name for w in ast.walk(cond)):
+                        return True
+    return False
 
 
 def run(check, S):
